@@ -100,3 +100,12 @@ Proof.
         (conj (GenFstOpsBridge.gen_project_in_model S m) (GenFstOpsBridge.gen_project_out_model S m)))).
 Qed.
 Print Assumptions C10_code_is_model.
+
+(* FST.from_string: the model the correspondence run evaluates (fst_of_string) relates x to x with weight one and
+   nothing else. *)
+From GV.model Require FstCompose.
+From GV.proofs Require FstStringProofs.
+Theorem C10_from_string : forall (S : SR) (x : list nat) (fuel : nat) (xs ys : list nat), length xs <= fuel ->
+  trel (@FstCompose.fst_of_string S x) fuel xs ys = if andb (Cfg.list_eqb Nat.eqb xs ys) (Cfg.list_eqb Nat.eqb xs x) then s1 else s0.
+Proof. intros S x fuel xs ys Hl. exact (FstStringProofs.fst_of_string_relation S x fuel xs ys Hl). Qed.
+Print Assumptions C10_from_string.
